@@ -62,6 +62,11 @@ func narrowAllTo[From constraints.Integer](c *Ctx, from From) {
 }
 
 func runC15(c *Ctx) {
+	defer func() {
+		c.meta.Rule += "; string literals: bodies of up to 8 pieces from {every escape, malformed escapes, quotes, backslash, non-ASCII} (length <= 12) through ParseString vs the Lean decoder, writer-escaped literals through Compile/Evaluate; representations: Date/DateTime/Instant/Time elements of every precision enum x zones {UTC, +05:30, -11:00, -03:30, +14:00} (helper inverses, JSON agreement, System<->element, canonical string), decimals with leading/trailing zeros up to 30 digits"
+	}()
+	runC15Literals(c)
+	runC15Representations(c)
 	c.meta.Rule = "narrowing: all 11x11 integer kind pairs; source values exhaustive for 8-bit sources, every 16-bit value at stride (quick) or exhaustively (thorough), boundary and random 32/64-bit values; distinct by (from, to, value)"
 	// 8-bit: exhaustive
 	for v := math.MinInt8; v <= math.MaxInt8; v++ {
